@@ -192,7 +192,7 @@ pub fn impl_eval(e: &Expr, facts: &Value) -> String {
     }
     // a clone is the same expression
     let cl = e.clone();
-    if cl != *e {
+    if format!("{:?}", cl) != format!("{:?}", e) {
         return format!("(clone-differs {})", direct);
     }
     direct
@@ -217,7 +217,8 @@ pub fn build_ruleset(rules: &[Expr], env: &EnvSpec, shared: &Arc<Shared>) -> Res
         .map(|(i, e)| {
             if h & 48 == 48 {
                 if let Ok(r) = Rule::parse(&format!("// r{}\n{}", i, e)) {
-                    if r.expr() == e && r.name() == format!("r{}", i) {
+                    // identical down to representation (sign of zero, decimal scale, NaN): `==` alone is too coarse
+                    if enc_expr(r.expr()) == enc_expr(e) && r.name() == format!("r{}", i) {
                         return r;
                     }
                 }
